@@ -697,6 +697,10 @@ def run(tier, procs=None, only=None):
     )
 
 
+# every real-library oracle of this property (each returns (reproduced, detail)); used to confirm structural facts that carry no replay of their own
+ALL_REPLAYS = [lambda c: replay_batch_order([0, 1, 0, 1])(c), lambda c: replay_batch_order([1, 0])(c), replay_alias_batch, replay_autoid, lambda c: replay_group_twice('head')(c), lambda c: replay_group_twice('filter')(c), replay_apply]
+
+
 def replay(data):
     key = data.get("key", "")
     det = data.get("replay_detail") or {}
